@@ -8,7 +8,7 @@ import ast
 import re
 
 from .. import regexlang as rx
-from ..astutil import call_attr, calls_in, guard_facts, parent_map, unparse, walk_local
+from ..astutil import call_attr, calls_in, guard_facts, parent_map, unparse, walk_local, text_facts
 from ..report import Finding, Report
 from ..rx_extract import all_compiles
 from ..srcindex import AnalysisError, FuncInfo, Index, dotted, raw_funcs
@@ -450,7 +450,7 @@ def check_optional_chars(idx: Index, rep: Report) -> None:
                     continue
                 m_ = re.fullmatch(r"self\.pos \+ (\d+)", off)
                 need = int(m_.group(1)) + 1 if m_ else (0 if re.fullmatch(r"self\.pos - \d+", off) else None)
-                facts = [(unparse(t), p_) for t, p_ in guard_facts(f.node, c)]
+                facts = text_facts(f.node, c)
                 ok = need == 0 or any(p_ and (mm := re.fullmatch(r"self\._is_in_bounds\((\d*)\)", t)) and (int(mm.group(1) or 1) >= (need or 10**9)) for t, p_ in facts)
                 if ok:
                     r.ok(inst, f"{LEXER}:{c.lineno} guarded by _is_in_bounds({need})")
@@ -527,7 +527,7 @@ def check_tuple_index(idx: Index, rep: Report) -> None:
         raise AnalysisError(f"{g.fq}: subscript of the result tuple by the operand index not found")
     for n in subs:
         key = unparse(n.slice)
-        facts = [(unparse(t), pol) for t, pol in guard_facts(g.node, n)]
+        facts = text_facts(g.node, n)
         bounded = any((not pol) and re.fullmatch(rf"{re.escape(key)} >= \w+", t) for t, pol in facts) or any(pol and re.fullmatch(rf"{re.escape(key)} < \w+", t) for t, pol in facts)
         if bounded:
             r.ok(f"{g.fq}:[{key}]", f"{g.module.relpath}:{n.lineno} subscript guarded by the tuple size")
